@@ -23,6 +23,7 @@
 (*   def g(y): ...              <<8,4>>   are programs of the same language *)
 (*   def k(x): ...              <<8,8>>   (HelperBody), the lines of helper *)
 (*   def m(y): ...              <<8,9>>   number i have the paths <<9,i>> \o *)
+(*   def s(x): global G; G=x+1  <<8,11>>                                     *)
 (*                                        path inside the body; the helpers *)
 (*                                        use the names of f's locals:      *)
 (*                                        scopes must be kept apart         *)
@@ -40,7 +41,7 @@
 (*  [t|->"inc", x, y, c]        x = y + c  (c a constant, x = y - 1 if c<0) *)
 (*  [t|->"call", x, fn, y]      x = fn(y)   fn a helper h, g, k, m or the   *)
 (*                              inner function r                            *)
-(*  [t|->"do", fn, y]           fn(y)       (value dropped; fn = w)         *)
+(*  [t|->"do", fn, y]           fn(y)       (value dropped; fn = w or s)    *)
 (*  [t|->"defr", v]             def r(z):            (a closure that READS  *)
 (*                                  return v + z      the local v of f)     *)
 (*  [t|->"defw", v]             def w(z):            (a closure that WRITES *)
@@ -122,22 +123,24 @@ Truthy(val) == IF val.k = "i" THEN val.v # 0 ELSE TRUE
 
 (* ---- the module-level helper functions (rendered by the adapter from the same table) ---- *)
 (* h: straight line; g: `if` with an early return, reads the global; k: the value of the     *)
-(* condition is computed on its own line, if / else; m: a loop with an `if` inside           *)
-Helpers == {"h", "g", "k", "m"}
-HelperIdx(fn) == CASE fn = "h" -> 1 [] fn = "g" -> 2 [] fn = "k" -> 3 [] fn = "m" -> 4
-HelperParam(fn) == CASE fn = "h" -> "x" [] fn = "g" -> "y" [] fn = "k" -> "x" [] fn = "m" -> "y"
+(* condition is computed on its own line, if / else; m: a loop with an `if` inside; s: assigns *)
+(* the global and returns nothing (called as a statement)                                     *)
+Helpers == {"h", "g", "k", "m", "s"}
+HelperIdx(fn) == CASE fn = "h" -> 1 [] fn = "g" -> 2 [] fn = "k" -> 3 [] fn = "m" -> 4 [] fn = "s" -> 5
+HelperParam(fn) == CASE fn = "h" -> "x" [] fn = "g" -> "y" [] fn = "k" -> "x" [] fn = "m" -> "y" [] fn = "s" -> "x"
 HelperBody(fn) ==
   CASE fn = "h" -> <<Inc("y", "x", 1), Ret("y")>>
     [] fn = "g" -> <<If("y", <<RetB("y", "G")>>, <<>>), RetC(0)>>
     [] fn = "k" -> <<Inc("y", "x", -1), If("y", <<Const("x", 2)>>, <<Const("x", 1)>>), Ret("x")>>
     [] fn = "m" -> <<Inc("x", "y", 1), For(2, <<If("y", <<Inc("x", "x", 1)>>, <<>>), Dec("y")>>), Ret("x")>>
+    [] fn = "s" -> <<Inc("G", "x", 1)>>
 (* the inner functions of f: parameter z, one body line at <path of the def> \o <<3, 1>> *)
 Inner == {"r", "w"}
 InnerParam == "z"
 InnerBody(fn, v) == IF fn = "r" THEN <<RetB(v, InnerParam)>> ELSE <<Inc(v, InnerParam, 1)>>
 
 Locals == {"a", "b", "x", "y", "o", "p", "l", "d", "r", "w", "z"}
-Globals == {"G", "Box", "h", "g", "f", "k", "m"}
+Globals == {"G", "Box", "h", "g", "f", "k", "m", "s"}
 Names == Locals \cup Globals
 Refs == 1..4
 Keys == 0..4
@@ -149,11 +152,11 @@ ClassVal(f) == IF f = 3 THEN 2 ELSE 3
 
 ModLine(i) == <<8, i>>
 TestPath == <<7, 1>>
-(* instances 1..10 are the module-level definitions executed by the import *)
-NMod == 10
+(* instances 1..11 are the module-level definitions executed by the import *)
+NMod == 11
 ModInsts == [i \in 1..NMod |-> [p |-> ModLine(i), d |-> {}, s |-> IF i \in {6, 7, 10} THEN {2} ELSE {}]]
 ModDef(n) == CASE n = "G" -> {1} [] n = "Box" -> {2} [] n = "h" -> {3} [] n = "g" -> {4} [] n = "f" -> {5}
-               [] n = "k" -> {8} [] n = "m" -> {9} [] OTHER -> {}
+               [] n = "k" -> {8} [] n = "m" -> {9} [] n = "s" -> {11} [] OTHER -> {}
 
 Init0(a, b) ==
   [insts |-> ModInsts,
